@@ -67,13 +67,15 @@ Proof.
   apply tr_mutind.
   - intros l a r f Hr Hf. destruct f as [|f]; [cbn in Hf; lia|]. cbn [app spvalue]. rewrite (take_anns_app a r (after_not_ann r Hr)). reflexivity.
   - intros ns a r f Hr Hf. destruct f as [|f]; [cbn in Hf; lia|]. cbn [app spvalue]. rewrite (take_anns_app a r (after_not_ann r Hr)). reflexivity.
-  - intros a r f _ Hf. destruct f as [|f]; [cbn in Hf; lia|]. cbn [app spvalue]. rewrite <- app_assoc. rewrite (take_anns_app a ([KRS] ++ r) I). reflexivity.
+  - intros a r f Hr Hf. destruct f as [|f]; [cbn in Hf; lia|]. cbn [app spvalue]. rewrite <- app_assoc. rewrite (take_anns_app a ([KRS] ++ r) I).
+    cbn [app]. destruct a; [|reflexivity]. pose proof (take_anns_app [] r (after_not_ann r Hr)) as E. cbn [map app] in E. rewrite E. reflexivity.
   - intros a items body Hb IH r f _ Hf. destruct f as [|f]; [cbn in Hf; lia|]. cbn [app spvalue]. rewrite <- !app_assoc.
     destruct (tri_head _ _ Hb) as (t & rb & Eb & Ht).
     rewrite (take_anns_app a (body ++ [KRS] ++ r)) by (rewrite Eb; cbn [app]; destruct t; try exact I; destruct Ht).
     nlen Hf. specialize (IH r f a [] ltac:(lia)). cbn [rev app] in IH. cbn [app].
     rewrite Eb in *. cbn [app] in *. destruct t; try destruct Ht; exact IH.
-  - intros a r f _ Hf. destruct f as [|f]; [cbn in Hf; lia|]. cbn [app spvalue]. rewrite <- app_assoc. rewrite (take_anns_app a ([KRB] ++ r) I). reflexivity.
+  - intros a r f Hr Hf. destruct f as [|f]; [cbn in Hf; lia|]. cbn [app spvalue]. rewrite <- app_assoc. rewrite (take_anns_app a ([KRB] ++ r) I).
+    cbn [app]. destruct a; [|reflexivity]. pose proof (take_anns_app [] r (after_not_ann r Hr)) as E. cbn [map app] in E. rewrite E. reflexivity.
   - intros a ms body Hb IH r f _ Hf. destruct f as [|f]; [cbn in Hf; lia|]. cbn [app spvalue]. rewrite <- !app_assoc.
     destruct (trm_head _ _ Hb) as (t & rb & Eb & Ht).
     rewrite (take_anns_app a (body ++ [KRB] ++ r)) by (rewrite Eb; cbn [app]; destruct t; try exact I; destruct Ht).
